@@ -93,7 +93,13 @@ func c12HTML(s *pgScn, variant int) string {
 	if variant%2 == 1 {
 		margin = "25% 10px"
 	}
-	fmt.Fprintf(&b, `<html><head><style>@page{size:200px %dpx;margin:`+strings.ReplaceAll(margin, "%", "%%")+`;@bottom-center{content:counter(page) "/" counter(pages);font-family:weasyprint;font-size:8px;line-height:10px}}`, pageH(s.H))
+	// (decoy rules of the same specificity come first: among equal weights the later declaration wins)
+	b.WriteString(`<html><head><style>@page{size:50px 60px;margin:1px}@page :left{margin-left:2px}@page :right{margin-left:3px}`)
+	if s.Hfirst != 0 {
+		b.WriteString(`@page :first{size:40px 30px}`)
+	}
+	b.WriteString(`</style><style>`)
+	fmt.Fprintf(&b, `@page{size:200px %dpx;margin:`+strings.ReplaceAll(margin, "%", "%%")+`;@bottom-center{content:counter(page) "/" counter(pages);font-family:weasyprint;font-size:8px;line-height:10px}}`, pageH(s.H))
 	if s.Hfirst != 0 {
 		fmt.Fprintf(&b, `@page :first{size:200px %dpx}`, pageH(s.Hfirst))
 	}
